@@ -375,6 +375,7 @@ type verifProfile struct {
 	minCpus, maxCpus, minBalloons, maxBalloons int
 	share                                      cfgapi.CPUTopologyLevel
 	preferNew, spreadPods, hideHT              bool
+	explicitReserved                           bool // the built-in "reserved" type is written out in the configuration
 }
 
 var verifProfiles = []verifProfile{
@@ -392,6 +393,8 @@ var verifProfiles = []verifProfile{
 	{machine: 3, minCpus: 1, maxCpus: 3, minBalloons: 1, maxBalloons: 0, share: cfgapi.CPUTopologyLevelCore},
 	// up to two new-balloon-preferring instances with hidden hyperthreads sharing the idle CPUs of the whole system
 	{machine: 0, minCpus: 1, maxCpus: 2, maxBalloons: 2, share: cfgapi.CPUTopologyLevelSystem, preferNew: true, hideHT: true},
+	// the built-in reserved type defined explicitly (its omitted numbers are filled in by the policy)
+	{machine: 0, minCpus: 1, maxCpus: 2, share: cfgapi.CPUTopologyLevelPackage, explicitReserved: true},
 }
 
 // verifConfig builds a configuration with the user balloon types "a" (chosen by
@@ -450,6 +453,9 @@ func verifConfigFor(pr verifProfile) (*cfgapi.Config, int) {
 		a.HideHyperthreads = &hide
 	}
 	verifFinishConfig(cfg, a, pr.available)
+	if pr.explicitReserved {
+		cfg.BalloonDefs = append([]*cfgapi.BalloonDef{{Name: "reserved", CpuClass: "class-reserved", Namespaces: []string{"kube-system"}}}, cfg.BalloonDefs...)
+	}
 	return cfg, pr.machine
 }
 
